@@ -3,7 +3,7 @@
    unrepresentable argument/result values (abort in argument conversion or result
    conversion, either direction), throwing callback bodies, catching callback bodies,
    every slot table, every thread record.  Statements only. *)
-From RLBoxV Require Import Calls Calls_proofs.
+From RLBoxV Require Import Calls Calls_proofs ScopeExit ScopeExit_proofs.
 
 (* well nested: invoke = in ... out, callback = out ... in, closing notification carries the
    same kind, identity and transition state as the opening one; nothing left open *)
@@ -36,3 +36,13 @@ Theorem C19_example :
   let '(evs, ab, c, recs) := run slot (fun _ => false) (fun f => Nat.eqb f 1) cin (fun v => Ok v) false true {| cur := 99; lastcb := 0 |} t in
   nest [] evs = Some [] /\ ab = true /\ cur c = 99%nat /\ length recs = 5%nat /\ recs = closes evs.
 Proof. exact tree_example. Qed.
+
+(* scope_exit (the guard both crossings use for their closing notification and timing record): under EVERY
+   history of move constructions, releases and destructions the exit function never runs twice, and once
+   every object of the family is destroyed it has run exactly once unless the guard was released while armed *)
+Theorem C19_scope_exit_once : forall ops,
+  fired (sx_run ops) <= 1 /\
+  (all_destroyed (objs (sx_run ops)) = true ->
+   (fired (sx_run ops) = 1 /\ cancelled (sx_run ops) = 0) \/ (fired (sx_run ops) = 0 /\ cancelled (sx_run ops) = 1)).
+Proof. intros ops. split; [apply sx_never_twice|apply sx_exactly_once]. Qed.
+Print Assumptions C19_scope_exit_once.
